@@ -87,6 +87,8 @@ class Counter:
             with open(self.logpath, "ab") as fh:
                 fh.write(b"x")
         v = -0.5 * float(np.sum(x ** 2)) - 0.1 * float(np.sum(np.cos(3 * x)))
+        if getattr(self, "corner", False):
+            v = -2.0 * float(np.sum((x - 2.9) ** 2))      # mass in a corner of the prior box: many proposals leave the cube
         if self.hole and x[0] < -1.0:
             v = -np.inf  # a hard constraint: zero likelihood on a third of the prior
         if self.f32:
@@ -153,6 +155,7 @@ def one(cfg, strategy, seed, blobs):
     from tempest import Sampler
     kw = dict(cfg)
     c = Counter(blobs, hole=kw.pop("hole", False), f32=kw.pop("f32", False))
+    c.corner = kw.pop("corner", False)
     if strategy == "vectorize-list":
         c.as_list = True
         like, kw["vectorize"] = c.vec, True
@@ -191,14 +194,14 @@ def one(cfg, strategy, seed, blobs):
 def sweep(run, tier, rng):
     cfgs = [dict(clustering=False), dict(clustering=True, sample="rwm"), dict(clustering=False, resample="syst", hole=True),
             dict(clustering=False, f32=True), dict(clustering=True, sample="rwm", resample="syst", f32=True, hole=True),
-            dict(clustering=False, f32x=True)]
+            dict(clustering=False, f32x=True), dict(clustering=False, sample="rwm", corner=True), dict(clustering=False, corner=True, resample="syst")]
     if tier != "quick":
         cfgs += [dict(clustering=True, resample="syst"), dict(clustering=False, sample="rwm", volume_variation=0.5)]
     for ci, cfg in enumerate(cfgs):
         for blobs in ([False, True] if tier != "quick" or ci == 0 else [False]):
             seed = rng.randrange(10 ** 6)
             strategies = ["scalar", "inorder", "reversed", "shuffled", "lazy", "richpool"] + ([] if blobs else ["vectorize", "vectorize-buffer", "vectorize-list"]) \
-                + (["intpool"] if ci == 0 and not blobs else [])
+                + (["intpool"] if ci in (0, 2) and not blobs else [])   # two samplers with integer pools and DIFFERENT likelihoods in one process
             res = {}
             for st in strategies:
                 what = dict(cfg=cfg, blobs=blobs, strategy=st, random_state=seed)
